@@ -365,7 +365,8 @@ impl Ord for Uri {
 
 impl Hash for Uri {
 	fn hash<H: hash::Hasher>(&self, state: &mut H) {
-		self.parts().hash(state)
+		// Same hash as the reference it can be borrowed as.
+		self.as_uri_ref().hash(state)
 	}
 }
 
